@@ -318,6 +318,10 @@ func checkC14(r *Run) {
 	checkGRPCHandler(r, p)
 	checkSticky(r, p)
 	checkTerminalOverwrite(r, p)
+	r.Rule("C14.ERR", "no error returned by a call is discarded or left unexamined on some path anywhere in freighter (transports, middleware, freightfluence): a swallowed transport or transform error makes a stream carry on after a failed step instead of ending with that error", 1)
+	checkErrDrop(r, p, "C14.ERR", func(fn *FuncNode) bool {
+		return fn.InPkgs("freighter") && !fn.InPkgs("freighter/test")
+	}, 100)
 	checkFreshDecodeTargets(r, p, "C14.R5.fresh", func(fn *FuncNode) bool { return fn.InPkgs("freighter/http", "freighter/grpc", "freighter/mock") }, 2)
 	checkCloseOnce(r, p)
 }
@@ -414,8 +418,11 @@ func checkMockExec(r *Run, p *Prog) {
 	inspectNoLit(fn.Body, func(x ast.Node) bool {
 		if as, ok := x.(*ast.AssignStmt); ok && len(as.Lhs) == 1 && len(as.Rhs) == 1 && as.Tok == token.DEFINE {
 			if call, ok := ast.Unparen(as.Rhs[0]).(*ast.CallExpr); ok {
-				if f := CalleeFunc(fn, call); f != nil && f.Name() == "Encode" && len(call.Args) >= 2 && objOf(fn, call.Args[1]) == herr {
-					payload = objOf(fn, as.Lhs[0])
+				if f := CalleeFunc(fn, call); f != nil && f.Name() == "Encode" && len(call.Args) >= 2 {
+					// Encode(ctx, herr, ..) or Encode(ctx, handler(ctx, s), ..)
+					if (herr != nil && objOf(fn, call.Args[1]) == herr) || ast.Unparen(call.Args[1]) == ast.Expr(hcall) {
+						payload = objOf(fn, as.Lhs[0])
+					}
 				}
 			}
 		}
@@ -436,7 +443,7 @@ func checkMockExec(r *Run, p *Prog) {
 	sends := c.NodesWhere(isTerminalSend)
 	hp, _ := c.Locate(hcall)
 	q, vis := c.ReachAvoiding([]Point{hp}, nil, isTerminalSend)
-	ok := len(sends) == 1 && herr != nil
+	ok := len(sends) == 1 && payload != nil
 	var path []string
 	for _, ex := range c.Exits() {
 		if vis[ex.P] && !(ex.P.I >= 0 && ex.P.I < len(ex.P.B.Nodes) && isTerminalSend(ex.P.B.Nodes[ex.P.I])) {
@@ -672,20 +679,58 @@ func checkSticky(r *Run, p *Prog) {
 			continue
 		}
 		c := p.CFG(fn)
-		// (a) the first test returns the field when set
-		okFirst := false
-		if len(fn.Body.List) > 0 {
-			if ifs, ok := fn.Body.List[0].(*ast.IfStmt); ok {
-				if o, trueMeansNil, isCmp := nilCompareField(fn, ifs.Cond, fld); isCmp && o && !trueMeansNil {
-					for _, s := range ifs.Body.List {
-						if ret, ok := s.(*ast.ReturnStmt); ok && len(ret.Results) == 2 {
-							if sel, ok := ast.Unparen(ret.Results[1]).(*ast.SelectorExpr); ok && fieldVar(fn, sel) == fld {
-								okFirst = true
-							}
+		// (a) all work happens behind the "no terminal result stored yet" edge, and the
+		// other edge returns the stored field
+		unsetEdges := c.EdgesEstablishing(func(atom ast.Expr, val bool) bool {
+			isF, trueMeansNil, ok := nilCompareField(fn, atom, fld)
+			return ok && isF && val == trueMeansNil
+		})
+		setEdges := c.EdgesEstablishing(func(atom ast.Expr, val bool) bool {
+			isF, trueMeansNil, ok := nilCompareField(fn, atom, fld)
+			return ok && isF && val != trueMeansNil
+		})
+		okFirst := len(unsetEdges) > 0 && len(setEdges) > 0
+		if okFirst {
+			_, before := c.ReachAvoiding([]Point{c.Entry()}, unsetEdges, nil)
+			returnsField := false
+			for pt := range before {
+				if pt.I < 0 || pt.I >= len(pt.B.Nodes) {
+					continue
+				}
+				n := pt.B.Nodes[pt.I]
+				if ret, ok := n.(*ast.ReturnStmt); ok {
+					if len(ret.Results) == 2 {
+						if sel, ok := ast.Unparen(ret.Results[1]).(*ast.SelectorExpr); ok && fieldVar(fn, sel) == fld {
+							returnsField = true
+							continue
 						}
 					}
+					okFirst = false // some other return before the stored-result test
+					continue
+				}
+				// no transport work (calls, channel operations) before the test
+				work := false
+				inspectNoLit(n, func(y ast.Node) bool {
+					switch v := y.(type) {
+					case *ast.CallExpr:
+						if _, isConv := fn.Pkg.TypesInfo.Types[v.Fun]; isConv && fn.Pkg.TypesInfo.Types[v.Fun].IsType() {
+							return true
+						}
+						work = true
+					case *ast.UnaryExpr:
+						if v.Op == token.ARROW {
+							work = true
+						}
+					case *ast.SendStmt:
+						work = true
+					}
+					return true
+				})
+				if work {
+					okFirst = false
 				}
 			}
+			okFirst = okFirst && returnsField
 		}
 		r.Ob("C14.R3.sticky", sp.pkg+"."+sp.recv+".Receive returns the stored terminal result first", p.Position(fn.Pos()), okFirst, "later calls must keep returning the same terminal result")
 		// (b) every return of a decoded error returns the field (stored before)
